@@ -642,3 +642,15 @@ def q_capacity(res, rel, ql):
     it = ql.add("capacity-overflow=>error,state-kept[%s]" % rel.cfg, r, dt)
     record(res, it, {"query": it["query"], "meaning": "a continuation that would exceed 384 reassembled bytes is rejected and leaves no trace"})
     return r, (s.model() if r == "sat" else None), st
+
+
+def q_capacity_scaled(res, wrel, ql):
+    st = wrel.step("_ks")
+    v = st.v
+    over = z3.And(v.t_ok, v.chk == v.xor, z3.Length(v.st_data) + z3.Length(v.data) > wrel.cap, z3.UGE(v.nf, 2), z3.UGE(v.fn, 2),
+                  opt_eq(v.st_id_d, v.st_id_v, v.id_d, v.id_v), v.fn == v.st_fn + 1, z3.ULT(v.st_fn, 255))
+    good = z3.And(st.kind == R.K_ERR_NMEA, state_eq_pre_post(st))
+    s, r, dt = solve([st.wf, over, z3.Not(good)])
+    it = ql.add("capacity-overflow=>error,state-kept(capacity scaled 384->%d)[%s]" % (wrel.cap, wrel.cfg), r, dt)
+    record(res, it)
+    return r, (s.model() if r == "sat" else None), st
